@@ -492,6 +492,15 @@ pub fn load_event(ctx: &Ctx, a: &Value) -> (String, Value) {
                         6 => ("!D0", "!D99999999999"),
                         7 => ("ResourceSelector", "AnnotationSelector"),
                         8 => ("Id,", "Ident,"),
+                        // hostile cursor values and selector mixes in the offset / selector columns
+                        10 => (",0,", ",-9223372036854775808,"),
+                        11 => (",1,", ",18446744073709551615,"),
+                        12 => (",0,", ",-0,"),
+                        13 => (",1,", ",-9223372036854775808,"),
+                        14 => ("TextSelector", "TextSelector;TextSelector"),
+                        15 => ("AnnotationSelector", "AnnotationSelector;DataKeySelector"),
+                        16 => ("ResourceSelector", "DirectionalSelector"),
+                        17 => (";", ";;"),
                         _ => ("\n", "\n\n,,,\n"),
                     };
                     let s = String::from_utf8_lossy(&bytes).replacen(from, to, 1);
